@@ -60,6 +60,42 @@ def _run_worker(worker, modname, fname, tmo, extra_env=None, arg3=None):
     return res
 
 
+def fail_fast(prop, tier, lemmas, njobs):
+    """matrix mode: main runs only, in the order cheapest-first; the first REFUTED lemma whose counterexample reproduces ends the run"""
+    import signal
+    os.makedirs(os.path.join(ROOT, "replays"), exist_ok=True)
+    inconcl = 0
+    with cf.ThreadPoolExecutor(max_workers=njobs) as pool:
+        futs = {}
+        for name, meta in lemmas:
+            tmo = meta["thorough_timeout"] if tier == "thorough" else meta["timeout"]
+            worker = "vk.qzworker" if meta["kind"] == "qz" else "vk.sxworker"
+            futs[pool.submit(_run_worker, worker, meta["module"], name, tmo)] = (name, meta)
+        for fut in cf.as_completed(futs):
+            name, meta = futs[fut]
+            m = fut.result()
+            v = m.get("verdict")
+            if v == "REFUTED":
+                call = m.get("call") or extract_call(m.get("detail", ""))
+                if meta["kind"] == "qz":
+                    rp = {"failed": bool(m.get("reproduced"))}
+                elif call:
+                    rp = _run_worker("vk.replay", meta["module"], name, 120, {"VK_MODE": "replay"}, arg3=call)
+                else:
+                    rp = None
+                if rp and rp.get("failed"):
+                    print(f"VIOLATION property={prop} replay=(fail-fast, not stored)")
+                    print(f"  lemma {name}: {str(m.get('detail'))[:300]}")
+                    sys.stdout.flush()
+                    os.killpg(os.getpgid(0), signal.SIGKILL)
+                inconcl += 1
+            elif v != "CONFIRMED":
+                inconcl += 1
+                print(f"INCONCLUSIVE property={prop} lemma={name}: {v}")
+    print(f"{'OK' if not inconcl else 'INCONCLUSIVE-ONLY'} property={prop} (fail-fast)")
+    return 2 if inconcl else 0
+
+
 _CALL_RE = re.compile(r"when calling (\w+\(.*)$", re.S)
 
 
@@ -106,6 +142,8 @@ def main() -> int:
     ap.add_argument("prop")
     ap.add_argument("--tier", default=os.environ.get("VERIF_TIER", "quick"))
     ap.add_argument("--only", default=None)
+    ap.add_argument("--fail-fast", action="store_true",
+                    help="(seeded-change matrix) no twins; stop at the first counterexample that reproduces, print VIOLATION and kill the process group")
     ap.add_argument("--jobs", type=int, default=int(os.environ.get("VK_JOBS", "16")))
     ap.add_argument("--no-evidence", action="store_true")
     a = ap.parse_args()
@@ -138,6 +176,9 @@ def main() -> int:
     if not lemmas:
         print(f"HARNESS-ERROR no lemmas for {prop}")
         return 2
+
+    if a.fail_fast:
+        return fail_fast(prop, tier, lemmas, a.jobs)
 
     jobs = []  # (lemma, role, label, future)
     results = {name: {"meta": meta, "twins": {}} for name, meta in lemmas}
